@@ -11,8 +11,9 @@
      UnknownArch; the formal of a port / generic association -> UnknownFormal.
    - Dup s: the declaration whose declared name has node id s is repeated right after itself (node ids of the
      copy shifted beyond all node ids of the program); blame: the name of the copy, Duplicate.
-   - phrase replacements (Mini/Walk.v): the right-hand side of an assignment / return / initial value replaced
-     by a literal or an object of a type that does not fit (TypeMismatch at it); one actual of a call replaced
+   - phrase replacements (Mini/Walk.v): the right-hand side of an assignment / return / initial value — or one
+     element of it when it is an aggregate, positional or named, at any depth — replaced by a literal or an object
+     of a type that does not fit (TypeMismatch at it); one actual of a call replaced
      so that no overload fits, or the name of a subprogram used without an actual list, or a procedure call
      without its actuals / with another subprogram as callee (NoOverload at the callee); an association element dropped (MissingAssoc at the
      instantiated unit's name); `<=` and `:=` exchanged (KindMismatch at the target).
@@ -400,7 +401,9 @@ Inductive fsite :=
 | SArg (s : nid) (k : nat) (e : expr)      (* k-th actual of the call that is the root of phrase s    *)
 | SDrop (s : nid) (port : bool) (x : ident)(* association of formal x dropped from instantiation s     *)
 | SFlip (s : nid)                          (* signal assignment <-> variable assignment                *)
-| SStmt (s : nid) (st : stmt).             (* statement s := st (calls without actuals, wrong callee)  *)
+| SStmt (s : nid) (st : stmt)              (* statement s := st (calls without actuals, wrong callee)  *)
+| SRootAt (s : nid) (e : expr) (n : nid).  (* root expression of phrase s := e, to be blamed at node n (an
+                                              element of an aggregate, at any depth, replaced)         *)
 
 Definition plant_phrase (st : fsite) (ph : phrase) : phrase :=
   match st with
@@ -425,10 +428,11 @@ Definition plant_phrase (st : fsite) (ph : phrase) : phrase :=
       | _ => ph
       end
   | SStmt _ st' => match ph with PStmt _ => PStmt st' | _ => ph end
+  | SRootAt _ e _ => set_root e ph
   | _ => ph
   end.
 Definition site_nid (st : fsite) : nid :=
-  match st with SZap s | SDup s | SRoot s _ | SArg s _ _ | SDrop s _ _ | SFlip s | SStmt s _ => s end.
+  match st with SZap s | SDup s | SRoot s _ | SArg s _ _ | SDrop s _ _ | SFlip s | SStmt s _ | SRootAt s _ _ => s end.
 
 Definition plant (st : fsite) (p : program) : program :=
   match st with
@@ -491,6 +495,7 @@ Definition expect_nid_at (st : fsite) (m : nid) (i : option pinfo) : nid :=
       | None => 0
       end
   | SStmt s st' => stmt_nid st'
+  | SRootAt _ _ n => n
   end.
 Definition expect_nid (st : fsite) (p : program) : nid :=
   expect_nid_at st (max_nid p) (find_phrase p (site_nid st)).
@@ -576,6 +581,23 @@ Definition call_candidates (p : program) (i : pinfo) : list fsite :=
       map (fun x => SStmt (pi_id i) (SCall (FId (Occ (o_nid (fname_occ g)) x)) a)) (fun_idents p)
   | _ => []
   end.
+(* all ways to replace one element of an aggregate, at any depth, by c *)
+Fixpoint agg_variants (c : expr) (e : expr) {struct e} : list expr :=
+  match e with
+  | EAgg i els => map (EAgg i) (args_variants c els)
+  | _ => []
+  end
+with args_variants (c : expr) (a : args) {struct a} : list args :=
+  match a with
+  | ANil => []
+  | ACons ch x r =>
+      ACons ch c r :: map (fun x' => ACons ch x' r) (agg_variants c x) ++ map (ACons ch x) (args_variants c r)
+  end.
+Definition agg_candidates (cands : list expr) (i : pinfo) : list fsite :=
+  match phrase_root (pi_ph i) with
+  | Some e => flat_map (fun c => map (fun e' => SRootAt (pi_id i) e' (head_nid c)) (agg_variants c e)) cands
+  | None => []
+  end.
 Definition root_phrases (p : program) : list pinfo :=
   filter (fun i => match phrase_root (pi_ph i) with Some _ => true | None => false end) (walk_program p).
 Fixpoint seq_nat (n : nat) : list nat := match n with O => [] | S k => seq_nat k ++ [k] end.
@@ -595,8 +617,10 @@ Definition site_candidates (f : fclass) (p : program) : list fsite :=
   | FUnknownArch => map SZap (occs_of_kind OArch p)
   | FUnknownFormal => map SZap (occs_of_kind OFormal p)
   | FDuplicate => map SDup (dup_sites p)
-  | FWrongLiteral => flat_map (fun i => map (SRoot (pi_id i)) (lit_candidates p)) (root_phrases p)
-  | FWrongObject => flat_map (fun i => map (SRoot (pi_id i)) (obj_candidates p)) (root_phrases p)
+  | FWrongLiteral => flat_map (fun i => map (SRoot (pi_id i)) (lit_candidates p)) (root_phrases p) ++
+                     flat_map (agg_candidates (lit_candidates p)) (root_phrases p)
+  | FWrongObject => flat_map (fun i => map (SRoot (pi_id i)) (obj_candidates p)) (root_phrases p) ++
+                    flat_map (agg_candidates (obj_candidates p)) (root_phrases p)
   | FNoOverload =>
       flat_map (fun i =>
         match phrase_root (pi_ph i) with
